@@ -14,6 +14,15 @@ def run(prop, tier):
     t0 = time.time()
     acc = common.Acc()
     common.run_harness(exe(), ["all", 0 if tier == "quick" else 1], acc, "eintr_fault all", timeout=3000, crash_prop=prop)
+    probe = {}
+    if tier == "thorough" and not acc.viols:
+        # binding of the injection convention to reality: one real handled signal per case (non-deciding; a mismatch is an engine error)
+        px = build.build_exe("signal_probe", "plain", ["harness/signal_probe.c"])
+        r = subprocess.run([px], stdout=subprocess.PIPE, stderr=subprocess.STDOUT, text=True, timeout=120)
+        lines = [l for l in r.stdout.splitlines() if l.startswith("PROBE ")]
+        probe = dict(real_signal_probes=len(lines), real_signal_probe_lines=lines)
+        if r.returncode != 0 or any(" MISMATCH " in l for l in lines):
+            raise common.EngineError("real-signal probe disagrees with the injector's convention table or the library: %s" % [l for l in lines if "MISMATCH" in l])
     s = acc.stats
     cov = dict(evaluations=s.get("evaluations", 0), distinct_nontrivial=s.get("nontrivial", 0),
                rule="scenarios: p_uthread_sleep(30) on a virtual clock, semaphore acquire (unit available / arriving later from another thread), shm new+open+lock/unlock, semaphore OPEN/CREATE on absent and "
@@ -24,7 +33,7 @@ def run(prop, tier):
                exhaustive=True)
     return common.finish(prop, tier, "fault_enumeration", acc, cov,
                          ["asynchronous delivery timing of real signals is not enumerable; the interruption points the kernel can produce are (every blocking call invocation)",
-                          "the interrupted-call conventions mirror Linux: clock_nanosleep returns EINTR and leaves errno alone, all other calls return -1 with errno = EINTR"], t0)
+                          "the interrupted-call conventions mirror Linux: clock_nanosleep returns EINTR and leaves errno alone, all other calls return -1 with errno = EINTR (thorough tier: bound by a real-signal probe)"], t0, extra=probe)
 
 
 def replay(prop, path):
